@@ -105,6 +105,15 @@ Proof.
   apply nth_error_None in E. lia.
 Qed.
 
+(* (fix 45f1b07) the node-creating branches are reached only with a tail that can be built: a missing ANCHOR /
+   INDEX / KEY element followed by anything but Hash keys and non-negative Array indexes (from the segment itself
+   on when the data is a null) is the refusal of Nodes.require_buildable_path, whatever the creator would do *)
+Lemma missing_element_unbuildable segs i ps v c :
+  is_ty TAnchor (fst (seg_us ps)) || is_ty TIndex (fst (seg_us ps)) || is_ty TKey (fst (seg_us ps)) = true ->
+  buildable_tail segs (match v with RNode (NLeaf _ PNone) => i | _ => S i end) = false ->
+  missing_element creator segs i ps v c = gerr (YPE Generic).
+Proof. intros H1 H2. unfold missing_element. rewrite H1, H2. reflexivity. Qed.
+
 Lemma missing_element_res segs i ps v c : sres is_coords (missing_element creator segs i ps v c).
 Proof.
   unfold missing_element.
